@@ -48,10 +48,7 @@ def Word.extract (endian : Nat) (buf : Bytes) (off dl : Nat) : Bytes :=
 
 /-- `UARTDataWord.unpack`: returns the number of bytes consumed -/
 def Word.unpack (w : Word) (buf : Bytes) : Word × R Nat :=
-  match (if w.ipts = .none then (.ok (Ipts.none, 0) : R (Ipts × Nat)) else
-          match w.ipts.unpack (buf.take 8) with
-          | .ok i => .ok (i, 8)
-          | .error e => .error e) with
+  match unpackTs w.ipts buf with
   | .error e => (w, .error e)
   | .ok (i, off) =>
     let w1 := { w with ipts := i }
